@@ -1,4 +1,8 @@
 //! Generated source file output.
+// verification seam (off by default): in a simulator build every `std::…` path of this file
+// resolves to the simulator's stand-in (std itself except fs, thread and sync)
+#[cfg(typeshare_verif)]
+use verif_rt::shim as std;
 use anyhow::Context;
 use log::info;
 use std::{
